@@ -1903,16 +1903,31 @@ class JobsCursor:
             )
 
         def _strip_prefix(key):
-            """Strip the prefix, if it is present.
+            """Strip the namespace prefix ("sp." or "doc."), if it is present.
 
             Implicit and explicit sp prefixes are equivalent and can be treated
             identically for this purpose.
             """
-            return key.split(".", 1)[-1]
+            prefix, dot, rest = key.partition(".")
+            return rest if dot and prefix in ("sp", "doc") else key
 
         def _is_doc_key(key):
             """Check if a key is a document key."""
             return "." in key and key.split(".", 1)[0] == "doc"
+
+        _missing = object()
+
+        def _lookup(mapping, key, default=_missing):
+            """Get the value of a (possibly dotted, i.e. nested) key."""
+            value = mapping
+            for node in key.split("."):
+                try:
+                    value = value[node]
+                except (KeyError, TypeError):
+                    if default is _missing:
+                        raise KeyError(key)
+                    return default
+            return value
 
         if isinstance(key, str):
             stripped_key = _strip_prefix(key)
@@ -1926,23 +1941,23 @@ class JobsCursor:
                 if _is_doc_key(key):
 
                     def keyfunction(job):
-                        return job.document[stripped_key]
+                        return _lookup(job.document, stripped_key)
 
                 else:
 
                     def keyfunction(job):
-                        return job.cached_statepoint[stripped_key]
+                        return _lookup(job.cached_statepoint, stripped_key)
 
             else:
                 if _is_doc_key(key):
 
                     def keyfunction(job):
-                        return job.document.get(stripped_key, default)
+                        return _lookup(job.document, stripped_key, default)
 
                 else:
 
                     def keyfunction(job):
-                        return job.cached_statepoint.get(stripped_key, default)
+                        return _lookup(job.cached_statepoint, stripped_key, default)
 
         elif isinstance(key, Iterable):
             sp_keys = []
@@ -1961,16 +1976,16 @@ class JobsCursor:
 
                 def keyfunction(job):
                     return tuple(
-                        [job.cached_statepoint[k] for k in sp_keys]
-                        + [job.document[k] for k in doc_keys]
+                        [_lookup(job.cached_statepoint, k) for k in sp_keys]
+                        + [_lookup(job.document, k) for k in doc_keys]
                     )
 
             else:
 
                 def keyfunction(job):
                     return tuple(
-                        [job.cached_statepoint.get(k, default) for k in sp_keys]
-                        + [job.document.get(k, default) for k in doc_keys]
+                        [_lookup(job.cached_statepoint, k, default) for k in sp_keys]
+                        + [_lookup(job.document, k, default) for k in doc_keys]
                     )
 
         elif key is None:
